@@ -124,6 +124,8 @@ type Result struct {
 	Bool  bool   `json:"bool,omitempty"`
 	Snap  string `json:"snap,omitempty"` // DecodePatch / Accessors: what was decoded
 	Panic string `json:"panic,omitempty"`
+	// ErrVal: the error value itself (a caller may hold on to it; what it says must not change later)
+	ErrVal error `json:"-"`
 }
 
 func (r Result) String() string {
@@ -202,6 +204,8 @@ type API struct {
 	Equal      func(a, b []byte) bool
 	// Defaults assigns the package-level defaults and returns the function that puts the old ones back.
 	Defaults func(neg bool, limit int64) (restore func())
+	// ReadDefaults reports the package-level defaults as they are now.
+	ReadDefaults func() (neg bool, limit int64)
 }
 
 func snapOps[R ~[]byte](n int, op func(i int) map[string]*R, ptrs bool) string {
@@ -331,6 +335,7 @@ var V5 = API{
 		jp.SupportNegativeIndices, jp.AccumulatedCopySizeLimit = neg, limit
 		return func() { jp.SupportNegativeIndices, jp.AccumulatedCopySizeLimit = on, ol }
 	},
+	ReadDefaults: func() (bool, int64) { return jp.SupportNegativeIndices, jp.AccumulatedCopySizeLimit },
 }
 
 // Legacy is the staged root package (no options API: the With-options calls
@@ -372,6 +377,7 @@ var Legacy = API{
 		jl.SupportNegativeIndices, jl.AccumulatedCopySizeLimit = neg, limit
 		return func() { jl.SupportNegativeIndices, jl.AccumulatedCopySizeLimit = on, ol }
 	},
+	ReadDefaults: func() (bool, int64) { return jl.SupportNegativeIndices, jl.AccumulatedCopySizeLimit },
 }
 
 func ByName(n string) API {
@@ -431,7 +437,7 @@ func Exec(api API, c Call, a, b []byte, patch any, patchErr error, oc *OptsCache
 func outRes(out []byte, err error) Result {
 	r := Result{Out: out, Nil: out == nil}
 	if err != nil {
-		r.IsErr, r.Err = true, err.Error()
+		r.IsErr, r.Err, r.ErrVal = true, err.Error(), err
 	}
 	return r
 }
@@ -567,6 +573,13 @@ func DrawPool(t *rapid.T, legacy bool) Pool {
 	if gen.OneIn(t, 4, "nulldoc") {
 		// a null root: Apply on it fails late (at encoding time) - an error path of its own
 		add(&p.Docs, []byte(rapid.SampledFrom([]string{"null", " null ", "null\n"}).Draw(t, "nulltext")))
+	}
+	if gen.OneIn(t, 12, "deepdoc") {
+		// nested far deeper than any scratch state is kept for (a scanner's stack above 1024
+		// entries is not pooled): what a call does with its oversized scratch state afterwards
+		// shows in the calls that follow it or run beside it
+		n := rapid.SampledFrom([]int{1100, 1100, 2100}).Draw(t, "deepn")
+		add(&p.Docs, []byte(`{"d":`+strings.Repeat("[", n)+"1"+strings.Repeat("]", n)+`,"e":1}`))
 	}
 	np := gen.Uniform(t, 1, 3, "npatches")
 	for i := 0; i < np; i++ {
